@@ -42,17 +42,29 @@
 (* Call encoding (JSON arrays of integers, in and out):                     *)
 (*   alphabet entry  <<op, a, b>>     op 0 Read(len a)   1 Seek(a, whence b)*)
 (*                                    2 SeekRange(a, b)  3 Close            *)
-(*   exported call   <<op, a, b, kind, n, at, eof, cur>>                    *)
+(*   exported call   <<op, a, b, kind, n, at, eof, cur, cod, ins, top>>      *)
 (*     kind 0 unconstrained, 1 an error (non-EOF) is expected, 2 success    *)
 (*     Read:  n bytes, equal to data[at .. at+n); eof 0 = err must be nil,  *)
 (*            1 = nil or io.EOF, 2 = must be io.EOF                         *)
 (*     Seek:  at = the position returned;  cur 0/1/2 = cursor A/B/C         *)
+(*     cod, ins, top: where in the FILE the call starts (labels, like cur:  *)
+(*            they never influence a reply): the Codec of the chunk that    *)
+(*            holds pos (RacFile: 0 Zeroes .. 3 Zstandard, 4 = at or after   *)
+(*            the end), 1 iff pos is strictly inside that chunk, and the    *)
+(*            Root Node element (from 1, 0 = beyond) whose DRange holds pos *)
+(*                                                                         *)
+(* The file of a configuration is a geometry of RacFile.tla: chunk          *)
+(* boundaries, bytes stored per chunk and Codec per chunk are a CONSTANT    *)
+(* that this module reads (DSize, the chunk cursor, the labels); who wrote  *)
+(* the file - rac.Writer, rac.ChunkWriter or the harness's file builder -   *)
+(* and how its index is shaped is not visible here, as the property says.   *)
 (***************************************************************************)
-EXTENDS Integers, Sequences, FiniteSets, TLC
+EXTENDS Integers, Sequences, FiniteSets, TLC, RacFile
 
-CONSTANT Cfgs         \* << [dsize |-> 11, dchunk |-> 4, zmode |-> 1,
+CONSTANT Cfgs         \* << [runs |-> << <<lo, n, size, expls, codec>>, ... >>, top |-> <<0, ..., dsize>>,
                       \*     alpha |-> << <<op, a, b>>, ... >>, depth |-> 4], ... >>
-                      \* one per file x alphabet; depth = length of the exported call sequences;
+                      \* one per file x alphabet; runs/top = the file's geometry (RacFile.tla);
+                      \* depth = length of the exported call sequences;
                       \* written by checks/C14.py into a generated module that EXTENDS this one
 
 NCfg == Len(Cfgs)
@@ -61,29 +73,18 @@ Inf == 1073741823          \* "no limit" (maxInt64 in the code); above every off
 Min(a, b) == IF a < b THEN a ELSE b
 Max(a, b) == IF a > b THEN a ELSE b
 
-\* The files are written by rac.Writer in DChunkSize mode: chunk i (from 1) is
-\* [(i-1) * dchunk, Min(i * dchunk, dsize)).  (checks/C14.py compares this with
-\* the chunk ranges that rac.ChunkReader reports for the real file.)
-DSize(c) == Cfgs[c].dsize
-DChunk(c) == Cfgs[c].dchunk
-NChunks(c) == (DSize(c) + DChunk(c) - 1) \div DChunk(c)
-ChunkLo(c, i) == (i - 1) * DChunk(c)
-ChunkHi(c, i) == Min(i * DChunk(c), DSize(c))
-ChunkAt(c, p) == (p \div DChunk(c)) + 1          \* for 0 <= p < DSize(c)
+\* The file of configuration c (a geometry of RacFile.tla).  checks/C14.py
+\* compares it with the Leaf Nodes that the independent walker finds in the
+\* real file and with the chunk list that rac.ChunkReader reports.
+DSize(c) == GeoDSize(Cfgs[c])
+Chunk(c, p) == ChunkOf(Cfgs[c], p)       \* <<lo, hi, stored, codec>> of the chunk holding p, 0 <= p < DSize(c)
 
-\* Number of explicitly stored bytes of chunk i; the rest of its DRange is
-\* implicit zeroes (rac.Writer strips trailing zeroes).  This is the zero
-\* pattern that harness/cmd/racrreplay writes into the data (buildFile), with
-\* k = i - 1 the 0-based chunk index; C14.py cross-checks it with the data.
-Explicit(c, i) ==
-  LET k == i - 1
-      size == ChunkHi(c, i) - ChunkLo(c, i)
-      z == Cfgs[c].zmode
-  IN IF z = 0 THEN size
-     ELSE IF z >= 2 /\ k % 5 = 3 THEN 0
-     ELSE IF k % 3 = 1 THEN size \div 2
-     ELSE IF k % 3 = 2 /\ size > 1 THEN size - 1
-     ELSE size
+\* Number of bytes of chunk ch that come out of its decompressor (reader.go
+\* "State B"); the rest of its DRange is served as implicit zeroes ("State
+\* C").  The Zeroes Codec is implemented as a decompressor that produces the
+\* whole DRange (reader.go: zeroesReader), although in the file it stores
+\* nothing.
+Decompressed(ch) == IF ch[4] = CodecZeroes THEN ch[2] - ch[1] ELSE ch[3]
 
 VARIABLES cfg,      \* which configuration (file + alphabet)
           pos, lim, \* the in-memory reader: position, recorded limit (Inf = none)
@@ -104,7 +105,14 @@ CurCode == CASE cur = "A" -> 0 [] cur = "B" -> 1 [] cur = "C" -> 2
 
 Free == err \/ closed       \* replies are no longer constrained
 
-Rec(op, a, b, kind, n, at, eof) == <<op, a, b, IF Free THEN 0 ELSE kind, n, at, eof, CurCode>>
+\* Where in the file the call starts (labels only): <<cod, ins, top>>.
+Loc ==
+  IF pos >= DSize(cfg) THEN <<Beyond, 0, 0>>
+  ELSE LET ch == Chunk(cfg, pos)
+       IN <<ch[4], IF pos > ch[1] THEN 1 ELSE 0, TopAt(Cfgs[cfg], pos)>>
+
+Rec(op, a, b, kind, n, at, eof) ==
+  <<op, a, b, IF Free THEN 0 ELSE kind, n, at, eof, CurCode>> \o Loc
 
 \* The cursor after the reader has moved to q without reading (a Seek that
 \* changes pos resets to State A; one that does not keeps the loaded chunk).
@@ -113,12 +121,11 @@ CursorAfterSeek(q) ==
 
 \* The cursor after bytes up to (excluding) q have been delivered, q > old pos.
 CursorAfterRead(q) ==
-  LET c == cfg
-      i == ChunkAt(c, q - 1)                 \* the chunk the last byte came from
-      lo == ChunkLo(c, i)
-      hi == ChunkHi(c, i)
+  LET ch == Chunk(cfg, q - 1)                \* the chunk the last byte came from
+      lo == ch[1]
+      hi == ch[2]
   IN IF q = hi THEN cur' = "A" /\ dr' = <<q, q>>          \* chunk exhausted (possibly one call later)
-     ELSE IF q < lo + Explicit(c, i) THEN cur' = "B" /\ dr' = <<q, hi>>
+     ELSE IF q < lo + Decompressed(ch) THEN cur' = "B" /\ dr' = <<q, hi>>
      ELSE cur' = "C" /\ dr' = <<q, hi>>
 
 Fail(rec) ==     \* the call is answered with an error; afterwards unconstrained
@@ -181,5 +188,5 @@ StateInv == pos >= 0 /\ lim >= 0
 \* The states whose hist is exported (maximal histories).
 Maximal == Len(hist) = Cfgs[cfg].depth
 
-ASSUME \A c \in 1..NCfg : DChunk(c) > 0 /\ DSize(c) > 0 /\ DSize(c) < Inf
+ASSUME \A c \in 1..NCfg : WellFormed(Cfgs[c]) /\ DSize(c) > 0 /\ DSize(c) < Inf
 =============================================================================
